@@ -44,8 +44,10 @@ def _main(ds, upa):
 def _cases_for(ds, rng, tag, api=False):
     n = len(ds)
     sq = nets.topo_order(ds, rng)
-    nodata = rng.choice([-9999, -1, 0])
-    data = [nodata if rng.random() < 0.3 else rng.randint(1, 6) for _ in range(n)]
+    nodata = rng.choice([-9999, -1, 0, 7, 255])      # also sentinels LARGER than the data
+    lo = rng.choice([1, 1, -6])
+    data = [nodata if rng.random() < 0.3 else rng.randint(lo, 6) for _ in range(n)]
+    data = [v if (v != nodata or rng.random() < 0.5) else nodata for v in data]
     full = [rng.randint(1, 6) for _ in range(n)]
     yield {"k": 1401, "args": [ds, data], "group": f"{tag}-downstream"}
     yield {"k": 1402, "args": [ds, full, [nodata]], "group": f"{tag}-upstream_sum"}
@@ -53,7 +55,8 @@ def _cases_for(ds, rng, tag, api=False):
     yield {"k": 1403, "args": [ds, sq, data, [nodata], [1], [rng.randrange(3)]], "group": f"{tag}-fill-down"}
     upa = _uparea(ds)
     main = _main(ds, upa)
-    so = _strahler(ds)
+    # an order map that may DEcrease downstream (classic order does), not only Strahler
+    so = _strahler(ds) if rng.random() < 0.5 else [rng.randint(1, 3) for _ in range(n)]
     has = rng.randrange(2)
     k = rng.randint(0, 3)
     fdata = [(-9999 if rng.random() < 0.25 else rng.randint(0, 9)) for _ in range(n)]
